@@ -778,7 +778,7 @@ func (s *pSuite) opLegacy() {
 func init() { suites["params"] = runParams }
 
 func runParams(seed uint64, nOps int, outPath string) map[string]int {
-	s := &pSuite{r: &Rng{s: seed*0x9e3779b97f4a7c15 + 17}, stat: map[string]int{}}
+	s := &pSuite{r: seedRng("params", seed), stat: map[string]int{}}
 	s.t = NewTrace(outPath)
 	defer s.t.Close()
 	s.gov = authtypes.NewModuleAddress(govtypes.ModuleName).String()
